@@ -167,6 +167,10 @@ def gen_cases(ctx):
                                   ('ecdsa384', {'ecdsaSigHashes': ['sha256', 'sha512']}, (5, 3)), ('rsapss', {'rsaSigHashes': ['sha256']}, (8, 10))]:
             add(runner='cert', site='cv13s', ver=(3, 4), verifier='client', key=key, how='scheme', target='cv',
                 scheme=theirs, verifier_settings=mine)
+        for key in ['rsa', 'ecdsa']:
+            for theirs in [(0, 99), (9, 99), (4, 99), (8, 200)]:
+                add(runner='cert', site='cv13s', ver=(3, 4), verifier='client', key=key, how='unknown-scheme', target='cv',
+                    scheme=theirs)
         for key, mine, theirs in [('client-rsa', {'rsaSigHashes': ['sha256']}, (8, 5)), ('client-rsa', {}, (4, 1)),
                                   ('client-ecdsa', {'ecdsaSigHashes': ['sha384', 'sha512']}, (4, 3))]:
             add(runner='cert', site='cv13c', ver=(3, 4), verifier='server', key=key, how='scheme', target='cv',
